@@ -347,8 +347,8 @@ func runC11(args []string) {
 				unsortableSites[site] = true
 				seamExhaustive = false
 			}
-			if !rc.Thorough() && len(perms) > 12 {
-				perms = perms[:12]
+			if len(perms) > 80 {
+				perms = perms[:80]
 				seamExhaustive = false
 			}
 			for _, pm := range perms[1:] {
@@ -358,6 +358,7 @@ func runC11(args []string) {
 	}
 	// each job needs its own directory copy (parallel runs must not share the output file)
 	sfinds := make([]*Finding, len(sjobs))
+	applied := make([]bool, len(sjobs))
 	pipe.Parallel(len(sjobs), 16, func(j int) {
 		sj := sjobs[j]
 		p := progs[sj.prog]
@@ -374,7 +375,11 @@ func runC11(args []string) {
 			ps = append(ps, fmt.Sprint(x))
 		}
 		spec := fmt.Sprintf("%s:%d:%s", sj.site, sj.occ, strings.Join(ps, ","))
-		code, msg := runGen(seamBin, q, "VERIF_SEAM="+spec)
+		logf := filepath.Join(dir, ".seamlog")
+		code, msg := runGen(seamBin, q, "VERIF_SEAM="+spec, "VERIF_SEAM_LOG="+logf)
+		if lb, _ := os.ReadFile(logf); strings.Contains(string(lb), "APPLIED "+spec) {
+			applied[j] = true
+		}
 		got, _ := os.ReadFile(q.out())
 		// the copied directory has another import path only if the package is referenced by path; outputs are compared as text
 		if code != 0 || string(got) != string(canon[sj.prog]) {
@@ -396,6 +401,18 @@ func runC11(args []string) {
 		}
 	}
 	evals += len(sjobs)
+	nApplied := 0
+	for _, a := range applied {
+		if a {
+			nApplied++
+		}
+	}
+	if len(sjobs) > 0 && nApplied < len(sjobs)*9/10 {
+		// a permutation that is not applied explores nothing: refuse to report a vacuous run
+		fmt.Printf("EXPLORER-FAILED: only %d of %d map-order permutations were actually applied by the seam\n", nApplied, len(sjobs))
+		os.Exit(2)
+	}
+	rc.Coverage["map_order_permutations_applied"] = nApplied
 	var siteList []string
 	for s := range sitesReached {
 		siteList = append(siteList, s)
